@@ -189,6 +189,25 @@ fn handle(req: &Value) -> Value {
                 Err(e) => err_json("err", &e),
             }
         }
+        "pipe" => {
+            // search('(L) | (R)', d) vs search(R, search(L, d))
+            let mut rt = Runtime::new();
+            rt.register_builtin_functions();
+            let l = req["L"].as_str().unwrap(); let r = req["R"].as_str().unwrap();
+            let whole = format!("({}) | ({})", l, r);
+            let d = to_var(&req["doc"]);
+            let a = rt.compile(&whole).and_then(|x| x.search(d.clone()));
+            let b = rt.compile(l).and_then(|x| x.search(d.clone())).and_then(|m| rt.compile(r).and_then(|x| x.search(m)));
+            match (a, b) {
+                (Ok(x), Ok(y)) => json!({"kind": "ok", "equal": format!("{:?}", x) == format!("{:?}", y), "whole": from_var(&x), "parts": from_var(&y)}),
+                (Err(x), Err(y)) => json!({"kind": "ok", "equal": reason_kind(&x.reason) == reason_kind(&y.reason)}),
+                (x, y) => json!({"kind": "ok", "equal": false, "whole_ok": x.is_ok(), "parts_ok": y.is_ok()}),
+            }
+        }
+        "from_json" => match Variable::from_json(req["text"].as_str().unwrap()) {
+            Ok(v) => json!({"kind": "ok", "value": from_var(&v)}),
+            Err(e) => json!({"kind": "err", "message": e}),
+        },
         "search_default" => {
             // through the crate-level compile() (DEFAULT_RUNTIME)
             match jmespath::compile(req["expr"].as_str().unwrap()) {
